@@ -200,15 +200,19 @@ class Session:
 def walk(o: Any, sort_dicts: bool = False) -> Any:
     if o is None or isinstance(o, (bool, int, float, str, bytes)):
         return (type(o).__name__, o)
+    extra = ()
+    if type(o) not in (dict, list, tuple, set, frozenset) and isinstance(o, (dict, list, tuple, set, frozenset)) and hasattr(o, "__dict__"):
+        # a container subclass may carry state of its own (e.g. a registry that tracks its highest id)
+        extra = (("__attrs__", tuple(sorted((k, walk(v, sort_dicts)) for k, v in vars(o).items()))),)
     if isinstance(o, dict):
         items = [(walk(k, sort_dicts), walk(v, sort_dicts)) for k, v in o.items()]
         if sort_dicts:
             items.sort(key=repr)
-        return ("dict", tuple(items))
+        return ("dict", tuple(items)) + extra
     if isinstance(o, (list, tuple)):
-        return (type(o).__name__, tuple(walk(x, sort_dicts) for x in o))
+        return (type(o).__name__, tuple(walk(x, sort_dicts) for x in o)) + extra
     if isinstance(o, (set, frozenset)):
-        return ("set", tuple(sorted((walk(x, sort_dicts) for x in o), key=repr)))
+        return ("set", tuple(sorted((walk(x, sort_dicts) for x in o), key=repr))) + extra
     if isinstance(o, types.ModuleType):
         return ("module", o.__name__)
     if hasattr(o, "__dict__"):
